@@ -37,6 +37,11 @@ MIN_NONTRIVIAL = {"quick": 100, "thorough": 2500}
 LATTICE = [-1.0, 0.0, 0.5, 1.0, 2.0]
 
 
+_PKGS = os.path.join(os.path.dirname(os.path.dirname(os.path.abspath(__file__))), "mon", "fnlib", "pkgs")
+if _PKGS not in sys.path:
+    sys.path.insert(0, _PKGS)  # the package `kinlib` read by the generated modules
+
+
 def gen_cases(tier: str, seed: int) -> list[dict]:
     n = max(4, int(N[tier] * float(os.environ.get("VERIF_SCALE", "1"))))
     return [{"seed": f"{seed}:C06:{i}", "i": i} for i in range(n)]
